@@ -38,6 +38,7 @@ CFG_FLAGS = {
     "serialize": ["--features", "serialize"],
 }
 
+TIER_FEATS = []
 _scratch_dirs = []
 
 
@@ -89,7 +90,7 @@ def prepare_crate(scratch, sub="h"):
 
 def kani_cmd(h, prop_feature, target_dir, extra=()):
     cmd = ["cargo", "kani", "--harness", h.fq, "--exact", "--target-dir", target_dir, "-Z", "stubbing"]
-    feats = [prop_feature]
+    feats = [prop_feature] + TIER_FEATS
     if h.cfg == "serialize":
         feats.append("serialize")
     if h.cfg == "nostd":
@@ -102,7 +103,7 @@ def kani_cmd(h, prop_feature, target_dir, extra=()):
 def warmup(crate, prop_feature, cfg, target_dir, logdir):
     """Build dependencies + all harnesses of this property once, so workers only pay for solving."""
     cmd = ["cargo", "kani", "--only-codegen", "--target-dir", target_dir, "-Z", "stubbing"]
-    feats = [prop_feature] + (["serialize"] if cfg == "serialize" else [])
+    feats = [prop_feature] + TIER_FEATS + (["serialize"] if cfg == "serialize" else [])
     if cfg == "nostd":
         cmd += ["--no-default-features"]
     cmd += ["--features", ",".join(feats)]
@@ -115,13 +116,15 @@ def native_replay(scratch, h, prop_feature, pb, tag, watchdog=120):
     """Append the generated unit test to a copy of the crate and run it natively (cargo kani playback)."""
     crate = prepare_crate(scratch, "replay-%s-%s" % (h.name, tag))
     modfile = os.path.join(crate, "src", h.mod + ".rs")
+    if getattr(h, "twin", None):
+        pb = dict(pb, body=re.sub(r"concrete_playback_run\(concrete_vals, \w+\)", "concrete_playback_run(concrete_vals, %s)" % h.twin, pb["body"]))
     test = ("\n#[cfg(kani)]\nmod verif_playback {\n    #![allow(unused_imports)]\n    use super::*;\n    use alloc::vec;\n    use alloc::vec::Vec;\n"
             "    #[test]\n    fn %s() {\n%s\n    }\n}\n" % (pb["test_name"], pb["body"]))
     with open(modfile, "a") as f:
         f.write(test)
     tdir = os.environ.get("VERIF_TARGET_DIR_PLAYBACK") or os.path.join(scratch, "t-playback")
     cmd = ["cargo", "kani", "playback", "-Z", "concrete-playback"]
-    feats = [prop_feature] + (["serialize"] if h.cfg == "serialize" else [])
+    feats = [prop_feature] + TIER_FEATS + (["serialize"] if h.cfg == "serialize" else [])
     if h.cfg == "nostd":
         cmd += ["--no-default-features"]
     cmd += ["--features", ",".join(feats), "--", pb["test_name"], "--exact", "--nocapture"]
@@ -167,12 +170,14 @@ def run_property(prop, tier, jobs, keep):
     t0 = time.time()
     seed = int(os.environ.get("VERIF_SEED", "0") or 0)
     hs = registry.harnesses(prop, tier)
+    if tier == "thorough" and "thorough" not in TIER_FEATS:
+        TIER_FEATS.append("thorough")
     pm = meta.META[prop]
     scratch = mk_scratch()
     logdir = os.path.join(scratch, "logs")
     os.makedirs(logdir)
     crate = prepare_crate(scratch)
-    prop_feature = prop.lower()
+    prop_feature = ",".join(sorted(set(h.mod for h in hs) | {prop.lower()}))
     results = {}
     extra_results = []   # E2 or other engines: dicts with status/evaluations
     violations = []      # (label, replay_path)
@@ -200,12 +205,26 @@ def run_property(prop, tier, jobs, keep):
             log("BUILD FAILED for configuration %s:\n%s" % (c, tail))
             for h in hs:
                 if h.cfg == c:
-                    r = kani_run.HarnessResult(h.fq)
+                    r = kani_run.HarnessResult(h.key)
                     r.reason = "crate/harness did not build under Kani (configuration %s)" % c
-                    results[h.fq] = r
-    todo = [h for h in hs if h.fq not in results]
+                    results[h.key] = r
+    todo = [h for h in hs if h.key not in results]
     # memory-aware scheduling: at most `jobs` workers and sum of caps <= budget
-    budget = float(os.environ.get("VERIF_MEM_GB", "56"))
+    budget = float(os.environ.get("VERIF_MEM_GB", "0") or 0)
+    if budget <= 0:
+        avail = 56.0
+        try:
+            for line in open("/proc/meminfo"):
+                if line.startswith("MemAvailable:"):
+                    avail = int(line.split()[1]) / (1 << 20) * 0.85
+        except OSError:
+            pass
+        budget = max(8.0, min(56.0, avail))
+    try:
+        load = os.getloadavg()[0]
+    except OSError:
+        load = 0.0
+    jobs = max(2, min(jobs, int((os.cpu_count() or 16) - load)))
     lock = threading.Condition()
     used = [0.0]
 
@@ -216,8 +235,8 @@ def run_property(prop, tier, jobs, keep):
             used[0] += h.mem
         try:
             cmd = kani_cmd(h, prop_feature, tdirs[h.cfg])
-            rc, out, wall, to = kani_run.run_cmd(cmd, crate, h.timeout + 120, h.mem, os.path.join(logdir, h.name + ".log"))
-            r = kani_run.parse_output(h.fq, out, rc, to, wall)
+            rc, out, wall, to = kani_run.run_cmd(cmd, crate, h.timeout + 120, h.mem, os.path.join(logdir, h.name + "." + h.cfg + ".log"))
+            r = kani_run.parse_output(h.key, out, rc, to, wall)
             return h, r
         finally:
             with lock:
@@ -226,13 +245,16 @@ def run_property(prop, tier, jobs, keep):
 
     todo.sort(key=lambda h: -h.timeout)
     with cf.ThreadPoolExecutor(max_workers=jobs) as ex:
-        for h, r in ex.map(work, todo):
-            results[h.fq] = r
+        for fut in cf.as_completed([ex.submit(work, h) for h in todo]):
+            h, r = fut.result()
+            results[h.key] = r
             log("  [%s] %-44s %-12s %6.1fs  %s" % (prop, h.name, r.status, r.solver_time or r.wall, r.reason[:150]))
 
-    # ---- triage failures
-    for h in hs:
-        r = results[h.fq]
+    # ---- triage failures (in parallel: playback re-run + native replay per failed label)
+    tri_lock = threading.Lock()
+
+    def triage(h):
+        r = results[h.key]
         if h.expect_fail:
             if r.status == "fail":
                 r.status = "pass"
@@ -240,18 +262,17 @@ def run_property(prop, tier, jobs, keep):
             elif r.status == "pass":
                 r.status = "inconclusive"
                 r.reason = "false twin PASSED: harness is vacuous"
-            continue
+            return
         if r.status != "fail":
-            continue
+            return
         labels = sorted(set(f[0] for f in r.failed))
         only_unwind = all("unwinding assertion" in l for l in labels)
         if only_unwind and not h.c01:
             r.status = "inconclusive"
             r.reason = "unwinding bound too small: " + r.reason
-            continue
-        # get concrete values
+            return
         cmd = kani_cmd(h, prop_feature, tdirs[h.cfg], ["-Z", "concrete-playback", "--concrete-playback=print"])
-        rc, out, wall, to = kani_run.run_cmd(cmd, crate, h.timeout + 300, h.mem, os.path.join(logdir, h.name + ".playback.log"))
+        rc, out, wall, to = kani_run.run_cmd(cmd, crate, h.timeout + 300, h.mem, os.path.join(logdir, h.name + "." + h.cfg + ".playback.log"))
         pbs = [p for p in kani_run.parse_playback(out) if p["kind"] != "cover"]
         by_label = {}
         for p in pbs:
@@ -265,23 +286,31 @@ def run_property(prop, tier, jobs, keep):
             vals = p["vals"] if p else None
             k = match_known(known, prop, h, label, vals)
             if k:
-                known_hits.append(k)
-                log("KNOWN-FINDING: property=%s %s" % (prop, k["what"]))
+                with tri_lock:
+                    known_hits.append(k)
+                    log("KNOWN-FINDING: property=%s %s" % (prop, k["what"]))
                 continue
             if not p:
                 unresolved.append(label + " (no concrete values produced)")
                 continue
-            verdict, rout = native_replay(scratch, h, prop_feature, p, "%d" % (zlib.crc32(label.encode()) % 100000))
+            tag = "%d" % (zlib.crc32(label.encode()) % 100000)
+            if h.stubs and not h.twin:
+                # stubs are not applied by native playback: the counterexample is reproducible only at Kani level
+                verdict, rout = "reproduced", "kani-level counterexample (stubs in force; no native twin)"
+            else:
+                verdict, rout = native_replay(scratch, h, prop_feature, p, tag)
             is_unwind = "unwinding assertion" in label
             if verdict == "reproduced" or (is_unwind and verdict == "hang"):
                 rp_dir = os.path.join(VERIF, "replays", prop)
                 os.makedirs(rp_dir, exist_ok=True)
-                rp = os.path.join(rp_dir, "%s.%d.json" % (h.name, zlib.crc32(label.encode()) % 100000))
+                rp = os.path.join(rp_dir, "%s.%s.json" % (h.name, tag))
                 panic = re.findall(r"panicked at [^\n]*\n[^\n]*", rout)
-                json.dump({"property": prop, "harness": h.fq, "module": h.mod, "cfg": h.cfg, "label": label,
-                           "test_name": p["test_name"], "test_body": p["body"], "concrete_vals": p["vals"],
+                json.dump({"property": prop, "harness": h.fq, "module": h.mod, "cfg": h.cfg, "features": prop_feature, "tier_features": list(TIER_FEATS),
+                           "label": label, "test_name": p["test_name"], "test_body": p["body"], "concrete_vals": p["vals"],
+                           "twin": h.twin, "stubs": h.stubs, "replay_level": "kani" if (h.stubs and not h.twin) else "native", "timeout": h.timeout, "mem": h.mem,
                            "native_panic": panic[:2], "how": "./check --replay " + rp}, open(rp, "w"), indent=1)
-                violations.append((label, rp))
+                with tri_lock:
+                    violations.append((label, rp))
                 confirmed_any = True
             else:
                 unresolved.append("%s (native replay: %s)" % (label, verdict))
@@ -294,21 +323,24 @@ def run_property(prop, tier, jobs, keep):
             r.status = "pass"
             r.reason = "only known findings"
 
+    with cf.ThreadPoolExecutor(max_workers=min(4, jobs)) as ex:
+        list(ex.map(triage, hs))
+
     for h in hs:
-        r = results[h.fq]
+        r = results[h.key]
         if r.status == "inconclusive":
-            inconclusive.append({"harness": h.fq, "reason": r.reason})
+            inconclusive.append({"harness": h.key, "reason": r.reason})
     # vacuity rule: every cover label of the property must be SATISFIED in at least one harness that ran to a verdict
     # (a label may be out of reach of a small instance, but never of all of them)
     sat, seen = set(), set()
     for h in hs:
-        r = results[h.fq]
+        r = results[h.key]
         if r.status in ("pass", "fail") and not h.expect_fail:
             for k, v in r.covers.items():
                 seen.add(k)
                 if v == "SATISFIED":
                     sat.add(k)
-    if not any(results[h.fq].status == "inconclusive" for h in hs):
+    if not any(results[h.key].status == "inconclusive" for h in hs):
         for k in sorted(seen - sat):
             inconclusive.append({"harness": "(property-wide)", "reason": "vacuity: cover witness never satisfiable in any harness: " + k})
     for er in extra_results:
@@ -342,23 +374,23 @@ def run_property(prop, tier, jobs, keep):
 
 
 def write_evidence(prop, tier, seed, hs, results, extra, violations, known_hits, inconclusive, wall, build_s, pm):
-    n_checks = sum(results[h.fq].n_checks for h in hs)
+    n_checks = sum(results[h.key].n_checks for h in hs)
     covers = set()
     for h in hs:
-        for k, v in results[h.fq].covers.items():
+        for k, v in results[h.key].covers.items():
             if v == "SATISFIED":
                 covers.add(k)
     evals = n_checks + sum(e.get("evaluations", 0) for e in extra)
     distinct = len(covers) + sum(e.get("distinct_nontrivial", 0) for e in extra)
     samples = []
     for h in hs[:6]:
-        r = results[h.fq]
-        samples.append({"harness": h.fq, "bounds": h.bounds, "status": r.status,
+        r = results[h.key]
+        samples.append({"harness": h.key, "bounds": h.bounds, "status": r.status,
                         "cover_witnesses": sorted(k for k, v in r.covers.items() if v == "SATISFIED")[:6]})
     for e in extra:
         samples += e.get("samples", [])[:4]
     funcs = sorted(set(f for h in hs for f in h.funcs) | set(f for e in extra for f in e.get("functions_encoded", [])))
-    stubs = sorted(set(s for h in hs for s in results[h.fq].stubs))
+    stubs = sorted(set(s for h in hs for s in results[h.key].stubs))
     ev = {
         "property_id": prop,
         "tier": tier,
@@ -375,13 +407,13 @@ def write_evidence(prop, tier, seed, hs, results, extra, violations, known_hits,
             "exhaustive": bool(pm.get("exhaustive", False)),
             "exhaustive_note": pm.get("exhaustive_note", ""),
             "engine": "Kani 0.68.0 / CBMC 6.11.0 / CaDiCaL" + (" + MIR->SMT (z3 4.8.12, cvc5 1.0)" if extra else ""),
-            "harnesses": [dict(results[h.fq].to_json(), bounds=h.bounds, cfg=h.cfg, expect_fail=h.expect_fail) for h in hs],
+            "harnesses": [dict(results[h.key].to_json(), bounds=h.bounds, cfg=h.cfg, expect_fail=h.expect_fail) for h in hs],
             "e2": extra,
             "functions_encoded": funcs,
             "stubs_in_force": stubs,
             "cbmc_checks": n_checks,
             "queries_discharged": evals,
-            "solver_time_s": round(sum(results[h.fq].solver_time for h in hs) + sum(e.get("solver_time_s", 0) for e in extra), 1),
+            "solver_time_s": round(sum(results[h.key].solver_time for h in hs) + sum(e.get("solver_time_s", 0) for e in extra), 1),
             "build_time_s": round(build_s, 1),
             "outside_bounds": pm.get("outside", []),
             "inconclusive": inconclusive,
@@ -405,9 +437,25 @@ def do_replay(path):
         return e2.replay(d, REPO, VERIF, mk_scratch())
     scratch = mk_scratch()
     os.makedirs(os.path.join(scratch, "logs"))
-    h = registry.H(d["module"], d["harness"].split("::")[-1], cfg=d.get("cfg", "default"))
+    h = registry.H(d["module"], d["harness"].split("::")[-1], cfg=d.get("cfg", "default"), twin=d.get("twin"),
+                   timeout=d.get("timeout", 900), mem=d.get("mem", 12))
+    if d.get("replay_level") == "kani":
+        crate = prepare_crate(scratch)
+        tdir = os.environ.get("VERIF_TARGET_DIR") or os.path.join(scratch, "t")
+        cmd = kani_cmd(h, d.get("features") or d["property"].lower(), os.path.join(tdir, h.cfg) if os.environ.get("VERIF_TARGET_DIR") else tdir)
+        rc, out, wall, to = kani_run.run_cmd(cmd, crate, h.timeout + 600, h.mem, os.path.join(scratch, "logs", "replay.log"))
+        r = kani_run.parse_output(h.key, out, rc, to, wall)
+        still = r.status == "fail" and any(f[0] == d["label"] for f in r.failed)
+        log("kani-level replay of %s on %s: %s" % (d["label"], REPO, "still fails" if still else r.status + " " + r.reason))
+        if still:
+            log("VIOLATION property=%s replay=%s" % (d["property"], path))
+            return 1
+        return 0 if r.status == "pass" else 2
     pb = {"test_name": d["test_name"], "body": d["test_body"]}
-    verdict, out = native_replay(scratch, h, d["property"].lower(), pb, "r")
+    for f in d.get("tier_features", []):
+        if f not in TIER_FEATS:
+            TIER_FEATS.append(f)
+    verdict, out = native_replay(scratch, h, d.get("features") or d["property"].lower(), pb, "r")
     log("replay of %s on %s: %s" % (d["label"], REPO, verdict))
     for m in re.findall(r"panicked at [^\n]*\n[^\n]*", out)[:2]:
         log("  " + m.replace("\n", " | "))
